@@ -6,7 +6,8 @@ import numpy as np
 
 RULE = ("K: (a) parity / mirror-map / Poynting-parity tables: every (field kind, component, axis, wall in {-1,+1}) row and "
         "invalid walls, exhaustive, exact; (b) mirror_extend_low_side on random 1-D and 2-D arrays (length 1..6, both "
-        "parities, on/off plane, any axis); (c) fdtdx.unfold_fields for ALL 26 non-zero symmetry tuples x {E,H} on random "
+        "parities, on/off plane, any axis); (c) fdtdx.unfold_fields for ALL 26 non-zero symmetry tuples (x both field kinds in the thorough tier, one kind per "
+        "tuple in the quick tier) on random "
         "binary64 arrays with extents 1..4 (extent 1 on symmetric axes included) plus the error inputs (no symmetry, entry "
         "outside {-1,0,1}, bad field kind); (d) fdtdx.unfold_array on random layouts (with/without component axis, "
         "array/scalar/absent signs, on-plane subsets); (e) fdtdx.unfold_detector_states on placed reduced scenes "
@@ -660,18 +661,20 @@ def nontrivial_of(case):
 def run(ctx):
     run_tables(ctx)
     cases = []
-    for _ in range(ctx.scale(30, 300)):
+    for _ in range(ctx.scale(16, 300)):
         cases.append(low_case(ctx, ctx.rng))
     for rep in range(ctx.scale(1, 6)):
-        for sym in ALL_SYMS:
-            for ft in "EH":
+        flip = ctx.rng.randint(0, 1)
+        for k, sym in enumerate(ALL_SYMS):
+            # thorough: both field kinds for every tuple; quick: every tuple with one kind (alternating, seed-dependent)
+            for ft in ("EH" if ctx.thorough else "EH"[(k + flip) % 2]):
                 cases.append(fields_case(ctx.rng, sym, ft))
     # error inputs of unfold_fields
     cases.append({"op": "fields", "sym": [0, 0, 0], "ft": "E", "shape": [2, 2, 2], "vals": [0.5] * 24})
     cases.append({"op": "fields", "sym": [2, 0, 0], "ft": "H", "shape": [2, 1, 2], "vals": [0.25] * 12})
     cases.append({"op": "fields", "sym": [0, -1, -3], "ft": "E", "shape": [1, 2, 2], "vals": [1.5] * 12})
     cases.append({"op": "fields", "sym": [-1, 0, 0], "ft": "D", "shape": [2, 2, 2], "vals": [0.5] * 24})
-    for _ in range(ctx.scale(45, 500)):
+    for _ in range(ctx.scale(28, 500)):
         cases.append(array_case(ctx.rng))
     for case in cases:
         d = EVAL[case["op"]](ctx, case)
@@ -682,16 +685,16 @@ def run(ctx):
             ctx.violation(case, d)
     flush(ctx)
     # detector scenes: every symmetry tuple in the thorough tier, a seed-dependent subset in the quick tier
-    syms = list(ALL_SYMS) if ctx.thorough else ctx.rng.shuffle(ALL_SYMS)[:7]
+    syms = list(ALL_SYMS) if ctx.thorough else ctx.rng.shuffle(ALL_SYMS)[:6]
     if not ctx.thorough:  # always keep one triple-plane and one pure-electric scene
-        syms = syms[:5] + [ctx.rng.choice([(-1, -1, -1), (-1, 1, -1), (1, -1, 1)]), ctx.rng.choice([(-1, 0, 0), (0, -1, 0)])]
+        syms = syms[:4] + [ctx.rng.choice([(-1, -1, -1), (-1, 1, -1), (1, -1, 1)]), ctx.rng.choice([(-1, 0, 0), (0, -1, 0)])]
     for sym in syms:
-        case = scene_case(ctx.rng, sym, ctx.scale(8, 12))
+        case = scene_case(ctx.rng, sym, ctx.scale(7, 12))
         d = eval_scene(ctx, case)
         if d:
             ctx.violation(case, d)
     flush(ctx)
-    ctx.extra["exhaustive_bounds"] = {"tables": "all rows", "unfold_fields": "all 26 symmetry tuples x {E,H}"}
+    ctx.extra["exhaustive_bounds"] = {"tables": "all rows", "unfold_fields": "all 26 symmetry tuples"}
 
 
 # ------------------------------------------------------------------------------------------- S
